@@ -174,7 +174,7 @@ class Obligation:
 # State
 # --------------------------------------------------------------------------------------
 class State:
-    def __init__(self, script=(), base_axioms=(), timeout_ms=1000, path_id=0):
+    def __init__(self, script=(), base_axioms=(), timeout_ms=250, path_id=0):
         self.script = list(script)
         self.pos = 0
         self.taken = []
